@@ -32,6 +32,7 @@ type Ctx struct {
 	curAllocState *State
 	// cells of variables assigned once in their lexical family: content survives havocs
 	immCells []immCell
+	shapeDone map[string]bool
 }
 
 type structInfo struct {
